@@ -1,9 +1,161 @@
-"""Route A: regenerate PbVerif/Gen/*.lean from /repo's working tree (tables only)."""
+"""Route A: regenerate PbVerif/Gen/*.lean from /repo's working tree (tables only; DESIGN 2.2).
+
+If the source leaves the fragment the translator understands it does not guess: it emits a
+`translationFailed` marker (the table becomes empty, so the dependent `decide` fails) and reports
+the failure to the runner."""
+import ast
 import os
+
 from . import common
+
+
+class Unsupported(Exception):
+    pass
+
+
+def _const(node, env):
+    """evaluate a constant integer expression with loop variables from env"""
+    if isinstance(node, ast.Constant) and isinstance(node.value, (int, float)) and not isinstance(node.value, bool):
+        if float(node.value) != int(node.value):
+            raise Unsupported(f'non-integer constant {node.value}')
+        return int(node.value)
+    if isinstance(node, ast.Name) and node.id in env:
+        return env[node.id]
+    if isinstance(node, ast.UnaryOp) and isinstance(node.op, ast.USub):
+        return -_const(node.operand, env)
+    if isinstance(node, ast.BinOp) and isinstance(node.op, (ast.Add, ast.Sub, ast.Mult)):
+        a, b = _const(node.left, env), _const(node.right, env)
+        return a + b if isinstance(node.op, ast.Add) else a - b if isinstance(node.op, ast.Sub) else a * b
+    raise Unsupported(ast.dump(node)[:80])
+
+
+def _target(t, env):
+    """output[row, col] -> (row, lo, hi)"""
+    if not (isinstance(t, ast.Subscript) and isinstance(t.value, ast.Name) and t.value.id == 'output'):
+        raise Unsupported('target ' + ast.dump(t)[:80])
+    sl = t.slice
+    if not (isinstance(sl, ast.Tuple) and len(sl.elts) == 2):
+        raise Unsupported('index ' + ast.dump(sl)[:80])
+    row = _const(sl.elts[0], env)
+    c = sl.elts[1]
+    if isinstance(c, ast.Slice):
+        if c.step is not None:
+            raise Unsupported('slice step')
+        lo = None if c.lower is None else _const(c.lower, env)
+        hi = None if c.upper is None else _const(c.upper, env)
+    else:
+        k = _const(c, env)
+        lo, hi = k, (None if k == -1 else k + 1)
+    return row, lo, hi
+
+
+def _stmts(body, env, full_only, out):
+    for st in body:
+        if isinstance(st, ast.Expr) and isinstance(st.value, ast.Constant):
+            continue  # docstring
+        if isinstance(st, ast.Assign):
+            if len(st.targets) == 1 and isinstance(st.targets[0], ast.Name) and st.targets[0].id == 'output':
+                raise Unsupported('re-assignment of output')
+            val = _const(st.value, env)
+            # chained assignment a = b = v assigns left to right
+            for t in st.targets:
+                row, lo, hi = _target(t, env)
+                out.append((row, lo, hi, val, full_only))
+        elif isinstance(st, ast.If):
+            tst = st.test
+            if (isinstance(tst, ast.UnaryOp) and isinstance(tst.op, ast.Not) and isinstance(tst.operand, ast.Name)
+                    and tst.operand.id == 'lower_only' and not st.orelse):
+                _stmts(st.body, env, True, out)
+            else:
+                raise Unsupported('if ' + ast.dump(tst)[:80])
+        elif isinstance(st, ast.For):
+            if not (isinstance(st.target, ast.Name) and isinstance(st.iter, ast.Call)
+                    and isinstance(st.iter.func, ast.Name) and st.iter.func.id == 'range' and not st.orelse):
+                raise Unsupported('for')
+            args = [_const(a, env) for a in st.iter.args]
+            for v in range(*args):
+                _stmts(st.body, dict(env, **{st.target.id: v}), full_only, out)
+        elif isinstance(st, ast.Return):
+            if not (isinstance(st.value, ast.Name) and st.value.id == 'output'):
+                raise Unsupported('return')
+        else:
+            raise Unsupported(type(st).__name__)
+
+
+def _table(fn):
+    """first statement: output = np.full((A if lower_only else B, data_size), v) | np.ones(...)"""
+    body = [s for s in fn.body if not (isinstance(s, ast.Expr) and isinstance(s.value, ast.Constant))]
+    first = body[0]
+    if not (isinstance(first, ast.Assign) and isinstance(first.targets[0], ast.Name) and first.targets[0].id == 'output'
+            and isinstance(first.value, ast.Call) and isinstance(first.value.func, ast.Attribute)):
+        raise Unsupported('first statement')
+    call = first.value
+    kind = call.func.attr
+    if kind == 'full':
+        shape, init = call.args[0], _const(call.args[1], {})
+    elif kind == 'ones':
+        shape, init = call.args[0], 1
+    elif kind == 'zeros':
+        shape, init = call.args[0], 0
+    else:
+        raise Unsupported('initialiser ' + kind)
+    if not (isinstance(shape, ast.Tuple) and len(shape.elts) == 2 and isinstance(shape.elts[1], ast.Name)
+            and shape.elts[1].id == 'data_size'):
+        raise Unsupported('shape')
+    rows = shape.elts[0]
+    if not (isinstance(rows, ast.IfExp) and isinstance(rows.test, ast.Name) and rows.test.id == 'lower_only'):
+        raise Unsupported('rows')
+    rl, rf = _const(rows.body, {}), _const(rows.orelse, {})
+    out = []
+    _stmts(body[1:], {}, False, out)
+    return init, rl, rf, out
+
+
+def _lean_opt(v):
+    return 'none' if v is None else f'(some ({v}))'
+
+
+def gen_diags():
+    path = os.path.join(common.REPO, 'pybaselines', '_banded_utils.py')
+    tree = ast.parse(open(path).read())
+    fns = {n.name: n for n in tree.body if isinstance(n, ast.FunctionDef)}
+    fails = []
+    lines = ['import PbVerif.Model.Banded',
+             '/-! GENERATED on every run by harness/pbv/translate.py from pybaselines/_banded_utils.py — do not edit. -/',
+             'namespace PbVerif.Gen', 'open PbVerif.Banded', '']
+    tables = {}
+    for d in (1, 2, 3):
+        name = f'_diff_{d}_diags'
+        try:
+            if name not in fns:
+                raise Unsupported('function not found')
+            init, rl, rf, assigns = _table(fns[name])
+            tables[d] = (init, rl, rf, assigns)
+            body = ',\n    '.join(f'⟨{r}, {_lean_opt(lo)}, {_lean_opt(hi)}, {v}, {"true" if fo else "false"}⟩'
+                                  for r, lo, hi, v, fo in assigns)
+            lines += [f'def diff{d} : DiagTable := {{ init := {init}, rowsLower := {rl}, rowsFull := {rf}, assigns := [',
+                      f'    {body} ] }}', f'def diff{d}Translated : Bool := true', '']
+        except Unsupported as e:
+            fails.append(f'Diags:{name}: outside the translated fragment ({e})')
+            lines += [f'def diff{d} : DiagTable := {{ init := 0, rowsLower := 0, rowsFull := 0, assigns := [] }}',
+                      f'def diff{d}Translated : Bool := false  -- translationFailed', '']
+    lines += ['end PbVerif.Gen', '']
+    _write('Diags.lean', '\n'.join(lines))
+    return fails, tables
+
+
+def _write(name, text):
+    d = os.path.join(common.LEAN, 'PbVerif', 'Gen')
+    os.makedirs(d, exist_ok=True)
+    p = os.path.join(d, name)
+    old = open(p).read() if os.path.exists(p) else None
+    if old != text:   # keep mtime when unchanged so that lake does not rebuild
+        with open(p, 'w') as fh:
+            fh.write(text)
 
 
 def regenerate():
     fails = []
-    os.makedirs(os.path.join(common.LEAN, 'PbVerif', 'Gen'), exist_ok=True)
+    f, _ = gen_diags()
+    fails += f
     return fails
